@@ -378,7 +378,8 @@ func tcpoptPool() (core []item, rest []item) {
 		}
 	}
 	// well-formed ones next to the boundary: MSS 0, window scale 15 / 255, SACK with 1..4 blocks, TS + SACK filling 40 bytes
-	areas = append(areas, []byte{2, 4, 0, 0}, []byte{3, 3, 15, 1}, []byte{3, 3, 255, 0}, []byte{2, 4, 255, 255, 3, 3, 14, 4, 2, 0, 0},
+	// (part of the core: every run sends each of them on a SYN, on the established connection and on a bare ACK)
+	boundary := append([][]byte{}, []byte{2, 4, 0, 0}, []byte{3, 3, 15, 1}, []byte{3, 3, 255, 0}, []byte{2, 4, 255, 255, 3, 3, 14, 4, 2, 0, 0},
 		append([]byte{1, 1, 5, 10}, make([]byte, 8)...), append([]byte{1, 1, 5, 18}, make([]byte, 16)...), append([]byte{1, 1, 5, 26}, make([]byte, 24)...),
 		append([]byte{1, 1, 5, 34}, make([]byte, 32)...), append(append(tsOpt(1, 2), 1, 1, 5, 26), make([]byte, 24)...), append([]byte{5, 34}, make([]byte, 38)...),
 		append([]byte{5, 42}, make([]byte, 38)...), append([]byte{5, 3}, make([]byte, 2)...), []byte{8, 10, 0, 0, 0, 1, 0, 0}, []byte{4, 2, 4, 2, 4, 2, 0, 0})
@@ -403,6 +404,10 @@ func tcpoptPool() (core []item, rest []item) {
 			// a port nobody listens on: parsed by HandleUnknownDestinationPacket
 			{"tcpopt/closed", frame{proto: protoIPv4, b: tcp4(netx.TCPSeg{SrcPort: 5560, DstPort: 81, Seq: 1, Ack: 1, Flags: netx.FlagAck, Wnd: 1000, Opts: a})}},
 		}
+	}
+	// the well-formed boundary values first: the core is cut off when a run is short of barrages
+	for _, a := range boundary {
+		core = append(core, mk(a)[:3]...)
 	}
 	for _, a := range coreAreas {
 		core = append(core, mk(a)[:3]...)
